@@ -241,6 +241,44 @@ theorem language_disparity_iff (munch : List Char → List Char) (inp : Input) (
           ∨ (∃ p pl l src, poeditValue inp = some p ∧ named munch p = some pl ∧ primary munch inp = some (l, src) ∧ l.ll ≠ pl.ll)) := by
   rw [(checkLanguage_verdict munch inp out h).1]; exact disparity_iff munch inp
 
+/-- source precedence, spelled out: the option outranks everything and is never overruled; without it the directory in front of
+    `LC_MESSAGES` (encoding and `@euro` dropped) outranks the base name; the base name (never with an encoding) is the weak source
+    that the LibreOffice exception can discard -/
+theorem source_precedence (munch : List Char → List Char) (inp : Input) :
+    (∀ l, inp.optLanguage = some l →
+        ∃ o, effectiveOutside munch inp = some o ∧ o.language = l ∧ o.source = "command-line")
+    ∧ (∀ l, inp.optLanguage = none → (lcMessagesDir inp.path).bind known = some l →
+        ∃ o, effectiveOutside munch inp = some o ∧ o.language = dropEuro (dropEncoding l) ∧ o.source = "pathname")
+    ∧ (inp.optLanguage = none → (lcMessagesDir inp.path).bind known = none →
+        ∀ o, outside inp = some o → o.strength = .weak ∧ o.language.enc = none ∧ o.source = "pathname"
+          ∧ ∃ l, (poStem inp.path).bind known = some l ∧ o.language = dropEuro l) := by
+  refine ⟨?_, ?_, ?_⟩
+  · intro l hl
+    unfold effectiveOutside outside
+    simp only [hl]
+    cases fieldLanguage munch inp.metaLanguages with
+    | none => exact ⟨_, rfl, rfl, rfl⟩
+    | some m => simp [libreOfficeException]
+  · intro l ho hl
+    unfold effectiveOutside outside
+    simp only [ho, hl]
+    cases fieldLanguage munch inp.metaLanguages with
+    | none => exact ⟨_, rfl, rfl, rfl⟩
+    | some m => simp [libreOfficeException]
+  · intro ho hl o hout
+    unfold outside at hout
+    simp only [ho, hl] at hout
+    cases hk : (poStem inp.path).bind known with
+    | none => simp [hk] at hout
+    | some l =>
+      simp only [hk] at hout
+      cases hle : l.enc with
+      | some e => simp [hle] at hout
+      | none =>
+        simp only [hle, Option.isSome_none, Bool.false_eq_true, if_false, Option.some.injEq] at hout
+        subst hout
+        exact ⟨rfl, hle, rfl, l, rfl, rfl⟩
+
 /-- `invalid-language` is reported iff the field's value is not a locale name with known, canonical codes -/
 theorem invalid_language_iff (munch : List Char → List Char) (inp : Input) (out : Output)
     (h : checkLanguage munch inp = .ok out) :
